@@ -394,7 +394,8 @@ def _rebound_params(f) -> set:
 def _decoders(P, what: str):
     """functions of rest.py that construct `what` (Assignment / Suspend): the decoders of the reply, wherever they live"""
     m = P.mod(REST)
-    return [f for f in m.funcs.values() if any(isinstance(c.func, ast.Name) for c in calls_named(f, what))]
+    from ..util import view_funcs
+    return [f for f in view_funcs(P, m) if any(isinstance(c.func, ast.Name) for c in calls_named(f, what))]     # as the rules see them: helpers looked through
 
 
 def _reply_source(f, e: ast.expr, key: str) -> bool:
